@@ -723,3 +723,62 @@ Proof.
   - unfold get_samples_list. rewrite <- map_fst_tab_of, Ht. apply tab_all_samples.
   - intro s. rewrite contig_list_tab by exact Hok. rewrite Ht. rewrite tab_all_contigs. reflexivity.
 Qed.
+
+(* ================================================================ boolean checkers for concrete instances *)
+Definition seg_eqb (a b : seg) : bool :=
+  (sg a =? sg b) && (si a =? si b) && Bool.eqb (src a) (src b) && (sl a =? sl b).
+Definition seg_okb (x : seg) : bool :=
+  ((sg x <? 4294967295) && (si x <? 2147483647) && (sl x <? 4294967296)) || seg_eqb x seg_empty.
+Definition nbyteb (b : N) : bool := (1 <=? b) && (b <? 128).
+Definition sample_wfb (s : sample) : bool :=
+  (lenN (scontigs s) <? 4294967296) &&
+  forallb (fun ct => forallb nbyteb (cname ct) && (lenN (csegs ct) <? 4294967296) && forallb seg_okb (csegs ct))
+          (scontigs s).
+Definition batch_okb (zc : N -> list N -> list N) (ss k : N) (B : list sample) : bool :=
+  forallb sample_wfb B && (lenN B <? 4294967296) &&
+  match ser_details ss k (segs_of B) with
+  | Ok vd => forallb (fun s => (lenN s <? 4294967296) && (lenN (zc 19 s) <? 4294967296)) (streams_list vd)
+  | _ => true
+  end.
+
+Lemma forallb_Forall {A} (f : A -> bool) (P : A -> Prop) l :
+  (forall x, f x = true -> P x) -> forallb f l = true -> Forall P l.
+Proof.
+  intros H. induction l as [|x l IH]; intro E; [constructor|].
+  cbn [forallb] in E. apply andb_true_iff in E. destruct E as [E1 E2]. constructor; [apply H; exact E1 | apply IH; exact E2].
+Qed.
+
+Lemma seg_eqb_eq a b : seg_eqb a b = true -> a = b.
+Proof.
+  unfold seg_eqb. intro H. repeat (apply andb_true_iff in H; destruct H as [H ?]).
+  destruct a as [g1 i1 r1 l1], b as [g2 i2 r2 l2]. cbn [sg si src sl] in *.
+  apply N.eqb_eq in H. apply N.eqb_eq in H0. apply N.eqb_eq in H2. apply Bool.eqb_prop in H1. congruence.
+Qed.
+
+Lemma sample_wfb_ok s : sample_wfb s = true -> sample_wf s.
+Proof.
+  unfold sample_wfb, sample_wf. intro H. apply andb_true_iff in H. destruct H as [H1 H2].
+  split; [apply N.ltb_lt; exact H1|].
+  eapply forallb_Forall; [|exact H2]. intros ct Hct. cbv beta in Hct.
+  apply andb_true_iff in Hct. destruct Hct as [Hct H5]. apply andb_true_iff in Hct. destruct Hct as [H3 H4].
+  split; [|split].
+  - eapply forallb_Forall; [|exact H3]. unfold nbyteb. intros b Hb. apply andb_true_iff in Hb. destruct Hb as [A B].
+    apply N.leb_le in A. apply N.ltb_lt in B. split; assumption.
+  - apply N.ltb_lt. exact H4.
+  - eapply forallb_Forall; [|exact H5]. unfold seg_okb. intros x Hx. apply orb_true_iff in Hx. destruct Hx as [Hx|Hx].
+    + left. apply andb_true_iff in Hx. destruct Hx as [Hx C]. apply andb_true_iff in Hx. destruct Hx as [A B].
+      apply N.ltb_lt in A. apply N.ltb_lt in B. apply N.ltb_lt in C. repeat split; assumption.
+    + right. apply seg_eqb_eq. exact Hx.
+Qed.
+
+Lemma batch_okb_ok zc ss k B : batch_okb zc ss k B = true -> batch_ok zc ss k B.
+Proof.
+  unfold batch_okb, batch_ok, batch_small. intro H.
+  apply andb_true_iff in H. destruct H as [H H3]. apply andb_true_iff in H. destruct H as [H1 H2].
+  split; [|split].
+  - eapply forallb_Forall; [|exact H1]. apply sample_wfb_ok.
+  - apply N.ltb_lt. exact H2.
+  - destruct (ser_details ss k (segs_of B)); try exact I.
+    eapply forallb_Forall; [|exact H3]. intros s Hs. cbv beta in Hs. apply andb_true_iff in Hs. destruct Hs as [A C].
+    apply N.ltb_lt in A. apply N.ltb_lt in C. split; assumption.
+Qed.
